@@ -16,3 +16,4 @@ import PvModel.Props.C17Label
 #print axioms Pv.C17_distinctfd_fail_means_unsat
 #print axioms Pv.C17_label_exactly_once
 #print axioms Pv.C17_label_term_exactly_once
+#print axioms Pv.C17_program_labelled
